@@ -10,6 +10,10 @@ import IbicusModel.Props.C07
 #print axioms Props.C07.years_cover_unique
 #print axioms Props.C07.years_adjusted_subset_window
 #print axioms Props.C07.yearCenters_nonempty_adjust
+#print axioms Props.C07.applyLocationRW_all_some
+#print axioms Props.C07.applyLocationDC_all_some
+#print axioms Props.C07.applyYears_all_some
+#print axioms Props.C07.applyLocationMonths_all_some
 #print axioms Props.C07.legacy_doy_counterexample
 #print axioms Props.C07.legacy_years_counterexample
 -- tier A: regenerated kernels = model
